@@ -339,7 +339,7 @@ seq(prop="C01", lean_targets=["TransportVerif.Props.C01", "TransportVerif.Props.
          "order for payloads that identify the write) and at the end everything the model delivered must have been delivered. Concurrent part (16 runs per quick check, 96 thorough): started routers with their own goroutines, a WAN with one or two NAT'd LANs, every LAN host sending 120 numbered datagrams to each WAN host and the WAN hosts to each other from concurrent goroutines (buffers overwritten after WriteTo), WAN hosts replying through the NAT mappings, all sockets drained concurrently; the tally (duplicates, corrupted, reordered within a flow, delivered to the wrong socket, wrong source shown, lost) must be all zero. non-trivial = a datagram read with NAT-translated source or "
          "destination or after >= 3 hops, drops by the NAT filter, a full queue, a missing socket, loopback traffic, a router iteration over several chunks, a NAT allocation; distinct = hash of the ops text",
     design_ref="DESIGN.md 7.1", technique="Lean 4 proof: invariants of the queue-granularity transition system over every topology and operation sequence (multiset accounting of write numbers, payload/origin ghost log, per-flow FIFO by hop-prefix invariant), NAT round trip from the C02 invariant; differential correspondence on generated topologies with hand-driven router loops",
-    level_text="Theorems (Props/C01.lean) about the model of the vnet data path (UDPConn.WriteTo, Net.write, Router.push/processChunks at one chunk per step, child-router NAT inbound, parent NAT outbound, host demultiplexing, UDPConn.ReadFrom) for EVERY topology (any routers, parent links, subnets, NIC tables, queue capacities, NAT configurations, hosts) and EVERY sequence of writes, router iterations in any order, reads, binds, closes, time steps, starts and stops: accounting (the write numbers in the queues, in the hand-over logs and in the drop log are a permutation of 0..written-1: every datagram is in exactly one place exactly once), delivered_at_most_once, nothing_missing_at_rest, payload_intact (payload, origin socket and written destination of a chunk are those of its write wherever it is), only_bound_socket and deliver_target (a hand-over goes only to the open socket findSock returns, which covers the translated destination; no other socket changes), inbox_is_suffix and read_takes_next (what is read is the hand-over log in order, once; a connected socket returns only its peer's datagrams), flow_fifo_partial (two datagrams of one socket that travelled the same sequence of queues to the same socket are handed over in write order), push_keeps / deliver_keeps / route_pops_head (nothing is discarded by a started router below capacity or by a covering socket with room). Props/C01Reply.lean: reply_reaches_sender, reply_within_lifetime, reply_reaches_sender_one2one (after an outbound datagram src->dst left a reachable NAT showing ext, a datagram from dst to ext is forwarded to src, at once and any time within the mapping lifetime). The pinned tree violated the no-loss clause (a NAT translation error ended the router goroutine and stalled all later traffic; witness in corpus/C01); repaired by a fix: commit. Tie: generated topologies of real routers/hosts with hand-driven router loops, every answer and all queue and inbox lengths compared with the model after every operation; reads judged against the write log.", level_note="PARTIAL where stated: flow_fifo_statement (order for any two datagrams between the same two sockets, without the same-path hypothesis) is not proved — it needs that two datagrams of one flow take the same path, which depends on the NAT state along the path; the reply theorems are for one NAT (composition along a nested path is exercised by the harness only). Trusted: Lean kernel + standard axioms; the topology is taken as built (address assignment is C13); one router iteration is the atomic unit and the harness runs the router loops itself, sequentially — real goroutine interleavings below queue granularity (the windows where Router.processChunks drops its mutex) are not scheduled deterministically: the concurrent part of the harness runs real router goroutines with concurrent senders and judges what arrives, but only samples schedules; chunk filters, minDelay/jitter, TCP chunks and the resolver are not modelled; the NAT clock is moved by shifting expiry stamps; slice aliasing of payloads is observed by the harness only.",
+    level_text="Theorems (Props/C01.lean) about the model of the vnet data path (UDPConn.WriteTo, Net.write, Router.push/processChunks at one chunk per step, child-router NAT inbound, parent NAT outbound, host demultiplexing, UDPConn.ReadFrom) for EVERY topology (any routers, parent links, subnets, NIC tables, queue capacities, NAT configurations, hosts) and EVERY sequence of writes, router iterations in any order, reads, binds, closes, time steps, starts and stops: accounting (the write numbers in the queues, in the hand-over logs and in the drop log are a permutation of 0..written-1: every datagram is in exactly one place exactly once), delivered_at_most_once, nothing_missing_at_rest, payload_intact (payload, origin socket and written destination of a chunk are those of its write wherever it is), only_bound_socket and deliver_target (a hand-over goes only to the open socket findSock returns, which covers the translated destination; no other socket changes), inbox_is_suffix and read_takes_next (what is read is the hand-over log in order, once; a connected socket returns only its peer's datagrams), flow_fifo_partial (two datagrams of one socket that travelled the same sequence of queues to the same socket are handed over in write order), same_flow_same_path (in every network whose NATs start freshly constructed and whose clock starts at 0, two datagrams written by one socket to one destination that reach the same socket travelled the same queues: every routing decision is a function of static data and the destination carried, and a NAT never forwards one external address to two internal addresses — Props/C01NatStable: inbound_key_stable, inbound_goes_to_the_owner, inbound_key_stable_one2one, for every NAT history) and hence flow_fifo (datagrams between the same two sockets are handed over in the order they were written, with no path hypothesis), push_keeps / deliver_keeps / route_pops_head (nothing is discarded by a started router below capacity or by a covering socket with room). Props/C01Reply.lean: reply_reaches_sender, reply_within_lifetime, reply_reaches_sender_one2one (after an outbound datagram src->dst left a reachable NAT showing ext, a datagram from dst to ext is forwarded to src, at once and any time within the mapping lifetime). The pinned tree violated the no-loss clause (a NAT translation error ended the router goroutine and stalled all later traffic; witness in corpus/C01); repaired by a fix: commit. Tie: generated topologies of real routers/hosts with hand-driven router loops, every answer and all queue and inbox lengths compared with the model after every operation; reads judged against the write log.", level_note="PARTIAL where stated: the reply theorems (reply_reaches_sender …) are for one NAT; their composition along a nested path is exercised by the harness only. flow_fifo is for networks whose NATs are freshly constructed at the start (Reach2); the other theorems hold for arbitrary initial NAT states (Reach). Trusted: Lean kernel + standard axioms; the topology is taken as built (address assignment is C13); one router iteration is the atomic unit and the harness runs the router loops itself, sequentially — real goroutine interleavings below queue granularity (the windows where Router.processChunks drops its mutex) are not scheduled deterministically: the concurrent part of the harness runs real router goroutines with concurrent senders and judges what arrives, but only samples schedules; chunk filters, minDelay/jitter, TCP chunks and the resolver are not modelled; the NAT clock is moved by shifting expiry stamps; slice aliasing of payloads is observed by the harness only.",
     trusted=LEAN_TB + ["hand-written Lean model Model/Vnet.lean (on Model/Nat.lean) validated on every run against real vnet routers, NATs, hosts and sockets: every answer (L1) and all queue and inbox lengths (L2) after every operation",
                        "the router loops are run by the harness (Router.processChunks called directly, stopFunc set white-box); NAT time by shifting expiry stamps; natctr op sets a NAT's port counter white-box (corpus case)",
                        "the write-log judge in Driver/Vnet.lean (model-independent: at most once, intact, per-flow order for identifying payloads; end-of-case loss check relative to the proved model)"],
